@@ -199,6 +199,7 @@ type HelperImpl struct {
 	Name string
 	mu   sync.Mutex
 	Exec map[uint64]int
+	Pokes int
 	// Gate, if set, is called inside Assist before returning (may block).
 	Gate func(token uint64)
 }
@@ -227,6 +228,26 @@ func (h *HelperImpl) Assist(token uint64, arg string) (string, error) {
 	return HF(h.Name, token, arg), nil
 }
 
+// Poke has no parameter: it counts its executions and parks like Assist.
+func (h *HelperImpl) Poke() (uint32, error) {
+	h.mu.Lock()
+	h.Pokes++
+	n := h.Pokes
+	g := h.Gate
+	h.mu.Unlock()
+	if g != nil {
+		g(uint64(n))
+	}
+	return uint32(n), nil
+}
+
+// PokeCount returns how many times Poke ran.
+func (h *HelperImpl) PokeCount() int {
+	h.mu.Lock()
+	defer h.mu.Unlock()
+	return h.Pokes
+}
+
 // ExecCount returns how many times token was executed.
 func (h *HelperImpl) ExecCount(token uint64) int {
 	h.mu.Lock()
@@ -252,6 +273,16 @@ func (d *DeskImpl) Keep(h probe.HelperProxy) error {
 	d.kept = h
 	d.mu.Unlock()
 	return nil
+}
+
+// Give hands the lent object on to whoever asks.
+func (d *DeskImpl) Give() (probe.HelperProxy, error) {
+	d.mu.Lock()
+	defer d.mu.Unlock()
+	if d.kept == nil {
+		return nil, fmt.Errorf("nothing kept")
+	}
+	return d.kept, nil
 }
 
 // Relay calls the lent object and returns its answer.
